@@ -38,10 +38,13 @@ VARIABLES members,  \* committed raft configuration (set of peers)
           fsm,      \* [Peers -> SUBSET Cids] pinset served by a live peer
           view,     \* [Peers -> SUBSET Peers] Consensus.Peers() of a live peer
           held,     \* [Peers -> SUBSET Cids] pinset a stopped peer held when it went down
+          lastIsCfg,\* the last committed entry is a membership change (no pin/unpin since): hashicorp/raft then
+                    \* refuses the snapshot-on-shutdown of raftWrapper.Shutdown ("configuration entry at N
+                    \* has not been applied"); raft shutdown and the close of raft.db must happen all the same
           cnt,      \* [ops, changes, downs, ldr]; ldr = p1 (the bootstrap leader) was never stopped or removed
           last      \* [a, at, p, c, out] out \in {"ok","noop","error"}
 
-vars == <<members, status, data, pins, fsm, view, held, cnt, last>>
+vars == <<members, status, data, pins, fsm, view, held, lastIsCfg, cnt, last>>
 
 Up == {p \in Peers : status[p] = "up"}
 Quorum(m) == 2 * Cardinality(m \cap Up) > Cardinality(m)
@@ -55,6 +58,7 @@ Init ==
     /\ fsm = [p \in Peers |-> {}]
     /\ view = [p \in Peers |-> IF p = "p1" THEN {"p1"} ELSE {}]
     /\ held = [p \in Peers |-> {}]
+    /\ lastIsCfg = TRUE
     /\ cnt = [ops |-> 0, changes |-> 0, downs |-> 0, ldr |-> TRUE]
     /\ last = Act("init", NONE, NONE, NONE, "ok")
 
@@ -71,6 +75,7 @@ Write(at, c, isPin) ==
     /\ Settle(members, pins', status)
     /\ cnt' = [cnt EXCEPT !.ops = @ + 1]
     /\ last' = Act(IF isPin THEN "pin" ELSE "unpin", at, NONE, c, "ok")
+    /\ lastIsCfg' = FALSE
     /\ UNCHANGED <<members, status, data, held>>
 
 \* p is started as a staging peer and joins through `via`
@@ -84,6 +89,7 @@ Join(p, via) ==
     /\ Settle(members', pins, status')
     /\ cnt' = [cnt EXCEPT !.changes = @ + 1]
     /\ last' = Act("join", via, p, NONE, "ok")
+    /\ lastIsCfg' = TRUE
     /\ UNCHANGED <<pins, held>>
 
 \* adding a peer that already is a member: harmless no-op
@@ -93,7 +99,7 @@ PeerAddPresent(at, p) ==
     /\ cnt.changes < MaxChanges
     /\ cnt' = [cnt EXCEPT !.changes = @ + 1]
     /\ last' = Act("add", at, p, NONE, "noop")
-    /\ UNCHANGED <<members, status, data, pins, fsm, view, held>>
+    /\ UNCHANGED <<members, status, data, pins, fsm, view, held, lastIsCfg>>
 
 PeerRemove(at, p) ==
     /\ at \in members \cap Up /\ Quorum(members)
@@ -102,16 +108,17 @@ PeerRemove(at, p) ==
     /\ UNCHANGED held
     /\ IF p \notin members
        THEN /\ last' = Act("rm", at, p, NONE, "noop")
-            /\ UNCHANGED <<members, status, data, pins, fsm, view>>
+            /\ UNCHANGED <<members, status, data, pins, fsm, view, lastIsCfg>>
        ELSE IF members = {p}
        THEN /\ last' = Act("rm", at, p, NONE, "error")        \* the last peer stays
-            /\ UNCHANGED <<members, status, data, pins, fsm, view>>
+            /\ UNCHANGED <<members, status, data, pins, fsm, view, lastIsCfg>>
        ELSE /\ members' = members \ {p}
             /\ Quorum(members')        \* the remaining members can go on
             /\ status' = [status EXCEPT ![p] = IF @ = "up" THEN "gone" ELSE @]
             /\ data' = [data EXCEPT ![p] = IF status[p] = "up" THEN "cleaned" ELSE @]
             /\ Settle(members', pins, status')
             /\ last' = Act("rm", at, p, NONE, "ok")
+            /\ lastIsCfg' = TRUE      \* (the removed peer stops with that entry as the newest one)
             /\ UNCHANGED pins
 
 Shutdown(p) ==
@@ -120,9 +127,9 @@ Shutdown(p) ==
     /\ status' = [status EXCEPT ![p] = "down"]
     /\ Settle(members, pins, status')
     /\ cnt' = [cnt EXCEPT !.downs = @ + 1, !.ldr = @ /\ p # "p1"]
-    /\ last' = Act("shutdown", NONE, p, NONE, "ok")
+    /\ last' = Act("shutdown", NONE, p, NONE, IF lastIsCfg THEN "nosnap" ELSE "ok")   \* stopped either way
     /\ held' = [held EXCEPT ![p] = pins]
-    /\ UNCHANGED <<members, data, pins>>
+    /\ UNCHANGED <<members, data, pins, lastIsCfg>>
 
 Restart(p) ==
     /\ status[p] = "down" /\ p \in members
@@ -130,7 +137,7 @@ Restart(p) ==
     /\ status' = [status EXCEPT ![p] = "up"]
     /\ Settle(members, pins, status')
     /\ last' = Act("restart", NONE, p, NONE, "ok")
-    /\ UNCHANGED <<members, data, pins, held, cnt>>
+    /\ UNCHANGED <<members, data, pins, held, lastIsCfg, cnt>>
 
 (* Submissions at a follower that cannot be acknowledged (consensus.commit ->  *)
 (* redirectToLeader: CommitRetries+1 redirect attempts).  p1 is the leader as *)
@@ -144,7 +151,7 @@ FaultyWrite(at, c, isPin) ==
     /\ IF isPin THEN c \notin pins ELSE c \in pins
     /\ cnt' = [cnt EXCEPT !.ops = @ + 1]
     /\ last' = Act(IF isPin THEN "fpin" ELSE "funpin", at, "p1", c, "noack")
-    /\ UNCHANGED <<members, status, data, pins, fsm, view, held>>
+    /\ UNCHANGED <<members, status, data, pins, fsm, view, held, lastIsCfg>>
 
 \* the consensus component of q (the leader, or the submitting peer itself) has just been shut
 \* down - its Cluster object and RPC endpoints still serve - when `at` submits: without a quorum
@@ -162,6 +169,7 @@ CrashWrite(at, q, c, isPin) ==
        /\ last' = Act(IF isPin THEN "cpin" ELSE "cunpin", at, q, c, IF left THEN "maybe" ELSE "noack")
        /\ pins' \in IF left THEN {pins, IF isPin THEN pins \cup {c} ELSE pins \ {c}} ELSE {pins}
     /\ Settle(members, pins', status')
+    /\ lastIsCfg' = (lastIsCfg /\ pins' = pins)
     /\ UNCHANGED <<members, data>>
 
 Next ==
@@ -192,6 +200,12 @@ RemovedStops == \A p \in Peers : status[p] = "gone" => p \notin members /\ data[
 \* no-ops and refused removals change nothing; membership changes keep the pinset
 NoOpHarmless == [][last'.out \in {"noop", "error"} =>
                      UNCHANGED <<members, status, data, pins, fsm, view>>]_vars
+\* a member stops (and can come back) whether or not its shutdown snapshot could be taken; in the
+\* binding: once Shutdown has returned the consensus store (raft.db) is closed, else a restart on the
+\* data folder blocks for ever and the replica's pinset is lost
+StoppedCanRestart ==
+    \A p \in Peers : (status[p] = "down" /\ p \in members
+                       /\ 2 * Cardinality((members \cap Up) \cup {p}) > Cardinality(members)) => ENABLED Restart(p)
 PinsetKept == [][last'.a \in {"join", "add", "rm", "shutdown", "restart"} => pins' = pins]_vars
 
 \* an operation that is not acknowledged because every redirect failed is not committed
